@@ -85,7 +85,11 @@ _TANH = z3.Function('tanh', z3.RealSort(), z3.RealSort())
 def u_sigmoid(a):
     """uninterpreted function with range (0, 1) (monotonicity is not stated: not needed so far)"""
     if not is_sym(a):
-        return 1.0 / (1.0 + math.exp(-a))
+        a = float(a)
+        if a >= 0:
+            return 1.0 / (1.0 + math.exp(-a))
+        e = math.exp(a)                    # no overflow for large negative arguments
+        return e / (1.0 + e)
     r = _SIGMOID(to_real(a))
     PATH().add_side(z3.And(r > 0, r < 1))
     return r
